@@ -521,7 +521,9 @@ void RealVisitor::check_power(const RCP<const Basic> &base,
 void RealVisitor::bvisit(const Mul &x)
 {
     unsigned non_real = 0;
-    tribool b = tribool_from_bool(!x.get_coef()->is_complex());
+    // a complex or an infinite coefficient is not real
+    x.get_coef()->accept(*this);
+    tribool b = is_real_;
     if (is_false(b)) {
         non_real++;
     }
@@ -595,7 +597,11 @@ void ComplexVisitor::bvisit(const Add &x)
 
 void ComplexVisitor::bvisit(const Mul &x)
 {
-    tribool b = tribool::tritrue;
+    // an infinite coefficient is not a complex number
+    x.get_coef()->accept(*this);
+    tribool b = is_complex_;
+    if (is_indeterminate(b) or is_false(b))
+        return;
     for (const auto &p : x.get_dict()) {
         this->check_power(*p.first, *p.second);
         b = andwk_tribool(b, is_complex_);
